@@ -91,10 +91,18 @@ def c01(trace):
     master = fx(funds) if funds > 0 else F(0)
     cash = {}
     pre = trace['init']
+    submitter = {}
     for i, st in enumerate(trace['steps']):
         post = st['post']
         scale = F(snap_scale(pre, post, st['op']))
         tol = scale / 10 ** 9 + F(1, 10 ** 9)
+        # a fill moves the cash of the portfolio the order was submitted to, and of no other
+        if st['op'][0] == 'submit' and st['out'] == 'ok' and st.get('order_id') is not None:
+            submitter[st['order_id']] = st['op'][1]
+        for t in st.get('txns', []):
+            if t.get('id') in submitter and t['pid'] != submitter[t['id']]:
+                out.add(i, 'the fill of order %s (%s x %s), submitted to portfolio %s, was debited to portfolio %s'
+                        % (t['id'], t['qty'], t['asset'], submitter[t['id']], t['pid']), 'fill-in-another-portfolio')
         dm, per = movements(st)
         master += dm
         if abs(fx(post['master']) - master) > tol:
